@@ -358,7 +358,11 @@ def _assumptions(pid):
         "for-each lifting: a loop body verified for an arbitrary element holds for every element in order",
         "no asynchronous exceptions; no thread interleaving semantics",
         "library models in pyvc/lib.py and specs/*.py marked trusted",
-        "z3 is sound",
+        "class invariants of agent objects hold at call boundaries (visible-state semantics); host code does not modify "
+        "agent objects and iterating / reading a host value does not change it (encapsulation)",
+        "arguments and results at contracted calls have the declared sorts: the type part is not an obligation of the "
+        "caller (DESIGN.md 4.2); instances of subclasses of str/int/float/bool/bytes do not occur",
+        "z3 and cvc5 are sound",
     ]
     return base
 
